@@ -266,8 +266,8 @@ def run_once(sc, faults):
         o.err_fired = err_raw.fired
         o.out_writes = out_raw.write_calls
         o.err_writes = err_raw.write_calls
-        o.out_bytes = len(out_raw.data)
-        o.err_bytes = len(err_raw.data)
+        o.out_bytes = res.out_bytes
+        o.err_bytes = res.err_bytes
         o.itr_fired = itr.fired
         o.itr_site = itr.site
         o.line_events = itr.events
@@ -578,6 +578,10 @@ def make_replay(sc, v):
 
 
 def replay(doc):
+    if doc.get('real_process_case'):
+        st, out, _f = real_case(doc['real_process_case'], doc['argv'], doc['unbuffered'])
+        v = judge_real(doc['real_process_case'], doc['argv'], st, out)
+        return {'class': v[0], 'detail': v[1]} if v else None
     sc = doc['scenario']
     prep()
     vs = isolated_execute(sc, TIERS['quick'], doc['faults'])
@@ -615,47 +619,74 @@ REAL_CASES = (
 )
 
 
+def real_case(name, argv, unbuffered):
+    """Run one fixed case as a real `python -m hpl` process. Returns (exit status, stdout or None, fault)."""
+    env = dict(os.environ)
+    env['PYTHONPATH'] = core.SRC
+    env.pop('PYTHONUNBUFFERED', None)
+    if unbuffered:
+        env['PYTHONUNBUFFERED'] = '1'
+    cmd = [sys.executable, '-m', 'hpl'] + list(argv)
+    if name in ('regular', 'syntaxerr'):
+        p = subprocess.run(cmd, env=env, capture_output=True, text=True, timeout=120)
+        return p.returncode, p.stdout, None
+    if name == 'devfull':
+        with open('/dev/full', 'w') as sink:
+            p = subprocess.run(cmd, env=env, stdout=sink, stderr=subprocess.PIPE, text=True, timeout=120)
+        return p.returncode, None, {'offset': 0, 'errno': 'ENOSPC', 'persistent': True}
+    r, w = os.pipe()
+    os.close(r)
+    try:
+        p = subprocess.run(cmd, env=env, stdout=w, stderr=subprocess.PIPE, text=True, timeout=120)
+    finally:
+        os.close(w)
+    return p.returncode, None, {'offset': 0, 'errno': 'EPIPE', 'persistent': True}
+
+
+def judge_real(name, argv, status, out):
+    """The property, applied to a real process: None or (class, detail)."""
+    mode = 'inline'
+    text = argv[-1]
+    parses, ast = oracle_parse(mode, text)
+    if name in ('devfull', 'closedpipe'):
+        # nothing can have reached the sink: success must not be reported
+        if status == 0 and '-o' in argv:
+            return ('exit0-on-failure', 'real process: exit status 0 although stdout (%s) accepted no byte of the document' % name)
+        return None
+    if parses != (status == 0):
+        return ('exit-status', 'real process: exit status %d, argument %s' % (status, 'parses' if parses else 'does not parse'))
+    if parses and '-o' in argv:
+        ok, doc = strict_json(out)
+        if not ok or doc != mirror(ast):
+            return ('bad-json', 'real process: stdout is not the strict JSON mirror of the AST')
+    return None
+
+
 def real_process_crosscheck():
     """The process stub is a model of CPython start-up/shutdown; compare it with the real thing on
     fixed cases (regular sink, /dev/full, closed pipe, syntax error), block-buffered and unbuffered.
-    Returns list of problems."""
+    The real processes are also judged by the property itself.
+    Returns (stub problems, violations)."""
     from hpl import cli
     problems = []
+    violations = []
     for unbuffered in (False, True):
-        env = dict(os.environ)
-        env['PYTHONPATH'] = core.SRC
-        env.pop('PYTHONUNBUFFERED', None)
-        if unbuffered:
-            env['PYTHONUNBUFFERED'] = '1'
         for name, argv in REAL_CASES:
-            cmd = [sys.executable, '-m', 'hpl'] + argv
-            if name in ('regular', 'syntaxerr'):
-                p = subprocess.run(cmd, env=env, capture_output=True, text=True, timeout=120)
-                real_status, real_out = p.returncode, p.stdout
-                fault = None
-            elif name == 'devfull':
-                with open('/dev/full', 'w') as sink:
-                    p = subprocess.run(cmd, env=env, stdout=sink, stderr=subprocess.PIPE, text=True, timeout=120)
-                real_status, real_out = p.returncode, ''
-                fault = {'offset': 0, 'errno': 'ENOSPC', 'persistent': True}
-            else:
-                r, w = os.pipe()
-                os.close(r)
-                try:
-                    p = subprocess.run(cmd, env=env, stdout=w, stderr=subprocess.PIPE, text=True, timeout=120)
-                finally:
-                    os.close(w)
-                real_status, real_out = p.returncode, ''
-                fault = {'offset': 0, 'errno': 'EPIPE', 'persistent': True}
+            real_status, real_out, fault = real_case(name, argv, unbuffered)
+            tag = '%s/%s' % (name, 'unbuffered' if unbuffered else 'buffered')
+            v = judge_real(name, argv, real_status, real_out)
+            if v is not None:
+                violations.append({'class': v[0], 'detail': '%s [%s]' % (v[1], tag), 'real_case': name, 'argv': list(argv),
+                                   'unbuffered': unbuffered, 'status': real_status})
+                continue
             out_raw = simio.FaultyRaw('stdout', fault)
             err_raw = simio.FaultyRaw('stderr', None)
             res = simio.run_process(cli.main, list(argv), out_raw, err_raw, out_buffer=0 if unbuffered else 8192)
-            tag = '%s/%s' % (name, 'unbuffered' if unbuffered else 'buffered')
             if real_status != res.status:
                 problems.append('%s: real exit status %d, stub %d' % (tag, real_status, res.status))
             if name in ('regular', 'syntaxerr') and real_out != res.stdout:
                 problems.append('%s: real stdout differs from the stub\'s' % tag)
-    return problems
+    return problems, violations
 
 
 ###############################################################################
@@ -704,7 +735,7 @@ def main(argv):
         for idx, d, e in sorted(digests):
             print('DIGEST %d %s %x' % (idx, d, e))
     harness_errors = []
-    cross = real_process_crosscheck()
+    cross, real_violations = real_process_crosscheck()
     for pr in cross:
         harness_errors.append('process stub disagrees with a real `python -m hpl` process: ' + pr)
 
@@ -735,6 +766,12 @@ def main(argv):
                     harness_errors.append('violation %s did not replay in a fresh interpreter (%s): %s' % (mv['class'], path, out[-300:]))
                     continue
             new.append((path, '%s: %s | argv mode=%s json=%s path=%s faults=%s' % (mv['class'], mv['detail'][:240], sc['mode'], sc['json'], sc['path_kind'], json.dumps(mv['faults'])[:200])))
+    for rv in real_violations:
+        doc = {'property': PROP, 'class': rv['class'], 'detail': rv['detail'], 'real_process_case': rv['real_case'], 'argv': rv['argv'],
+               'unbuffered': rv['unbuffered'], 'observed': {'status': rv['status']}, 'pythonhashseed': os.environ.get('PYTHONHASHSEED'),
+               'how_to_replay': '/venv/bin/python /verif/check.py C19 --replay <this file>'}
+        path = core.write_replay(PROP, 'real_%s_%s' % (rv['real_case'], 'unbuffered' if rv['unbuffered'] else 'buffered'), doc)
+        new.append((path, '%s: %s' % (rv['class'], rv['detail'])))
     wall = time.monotonic() - t0
     runs = stats.get('runs', 0)
     coverage = {
@@ -756,7 +793,7 @@ def main(argv):
         'path_kinds': {k[5:]: v for k, v in sorted(stats.items()) if k.startswith('path_')},
         'argv_shapes': {k[5:]: v for k, v in sorted(stats.items()) if k.startswith('mode_')},
         'json_documents_compared_fault_free': stats.get('json_documents_compared', 0),
-        'real_process_crosscheck': {'cases': [c[0] for c in REAL_CASES], 'disagreements': cross},
+        'real_process_crosscheck': {'cases': [c[0] for c in REAL_CASES], 'modes': ['block-buffered', 'unbuffered'], 'stub_disagreements': cross, 'violations_in_real_processes': len(real_violations)},
         'runs_skipped_for_time': stats.get('runs_skipped_for_time', 0),
         'pythonhashseed': os.environ.get('PYTHONHASHSEED'),
         'real_vs_stub': {'real': ['hpl.cli (main, parse_arguments, serializer)', 'hpl.parser', 'attrs.asdict', 'json', 'pathlib/io on real temporary files'],
